@@ -32,6 +32,7 @@ def cases(draw):
         "calibrate": draw(st.sampled_from(["no", "no", "streamline", "no-streamline"])),
         "frozen": draw(st.booleans()),
         "cycles": draw(st.lists(st.tuples(st.sampled_from(SERIALIZERS), st.sampled_from(TARGETS)), min_size=1, max_size=3)),
+        "by_name": draw(st.integers(0, 3)) == 0,  # qtypes given by name ("qint4"), as the API documents
         "partial": draw(st.integers(0, 5)) == 0,  # only every other eligible module is quantized (quantize(model, modules=[...]))
     }
 
@@ -104,7 +105,7 @@ def _exec_history(case):
     wk = "q8" if wq.bits == 8 else "qbits"
     fz = "frozen" if case["frozen"] else "unfrozen"
     has_ln = fam == "mlp-ln"
-    out.fingerprint = [case["model"], case["wq"], case["aq"], case["dtype"], case["calibrate"], case["frozen"], case["cycles"], bool(case.get("partial"))]
+    out.fingerprint = [case["model"], case["wq"], case["aq"], case["dtype"], case["calibrate"], case["frozen"], case["cycles"], bool(case.get("partial")), bool(case.get("by_name"))]
     out.klass = [f"fam-{fam}", case["wq"], f"act-{case['aq']}", case["dtype"], fz, f"calib-{case['calibrate']}"] + [f"ser-{s}" for s, _ in case["cycles"]] + [f"target-{t}" for _, t in case["cycles"]]
     grouped = wq.bits < 8
     out.nontrivial = grouped or "float8" in case["wq"] or (has_ln and aq is not None) or not case["frozen"] or len(case["cycles"]) >= 2
@@ -112,11 +113,15 @@ def _exec_history(case):
         out.discard = True
         return out
     partial = bool(case.get("partial")) and eligible_subset(model, aq) is not None
+    # what the caller passes: qtype objects, or their names
+    wq_arg, aq_arg = (case["wq"], None if aq is None else aq.name) if case.get("by_name") else (wq, aq)
+    if case.get("by_name"):
+        out.klass.append("qtypes-by-name")
     if partial:
         out.klass.append("partially-quantized")
-        r = cut(quantize, model, modules=eligible_subset(model, aq), weights=wq, activations=aq)
+        r = cut(quantize, model, modules=eligible_subset(model, aq), weights=wq_arg, activations=aq_arg)
     else:
-        r = cut(quantize, model, weights=wq, activations=aq)
+        r = cut(quantize, model, weights=wq_arg, activations=aq_arg)
     if isinstance(r, Raised):
         return out.fail(f"quantize-raises:{r.type}", r.text)
     if case["calibrate"] != "no" and aq is not None:
@@ -189,7 +194,7 @@ def _exec_history(case):
                 owq = O.QTALL[names[(names.index(case["wq"]) + 1 + case["seed"] % (len(names) - 1)) % len(names)]]
                 quantize(tgt, weights=owq, activations=aq, **({"modules": eligible_subset(tgt, aq)} if partial else {}))
             elif target in ("same", "same-frozen", "same-assign"):
-                quantize(tgt, weights=wq, activations=aq, **({"modules": eligible_subset(tgt, aq)} if partial else {}))
+                quantize(tgt, weights=wq_arg if ci % 2 == 0 else wq, activations=aq_arg if ci % 2 == 0 else aq, **({"modules": eligible_subset(tgt, aq)} if partial else {}))
                 if target == "same-frozen" and fz == "frozen":
                     # a frozen model reloaded over an already frozen model of the same architecture
                     freeze(tgt)
